@@ -166,3 +166,23 @@ func NewClosingTagPP(name string) *ClosingTagPP {
 }
 func (p *ClosingTagPP) Naming() string { return p.Nm }
 func (p *ClosingTagPP) Close() error   { return zeroClose(p.Nm) }
+
+// RegistrarPP is a component-factory post-processor that contributes component definitions
+// programmatically (not through SetComponents): eager components like any other.
+type RegistrarPP struct {
+	Nodes []Node
+}
+
+func (f *RegistrarPP) Naming() string { return "verif.registrar" }
+func (f *RegistrarPP) LazyInit()      {}
+func (f *RegistrarPP) Bind(r *Run) {
+	for _, n := range f.Nodes {
+		n.Core().Log = r.Log
+	}
+}
+func (f *RegistrarPP) PostProcessComponentFactory(factory container.Factory) error {
+	for _, n := range f.Nodes {
+		factory.GetDefinitionRegistry().GetMetaOrRegister(n.DisplayName(), n)
+	}
+	return nil
+}
